@@ -29,10 +29,12 @@ func init() {
 		Rule: "sources: every generator family of the other checks (core, calls, closures, metatables, coroutines, fault programs; canonical and wild layouts), the repository's own .lua test scripts, and an adversarial family " +
 			"(1..260 locals, >256/>512/thousands of constants, string keys beyond the RK range, constructors with up to 60000 positional/keyed/mixed items and trailing calls, nesting depth up to 200, 0..60 and >255 upvalues, long jumps, every goto/label shape); " +
 			"each accepted source is compiled with lua.Compile(parse.Parse(src)) and every prototype of the tree is checked by the structural verifier (operands, constants, upvalues, nested prototypes, jump targets vs instruction boundaries and multi-word groups, final RETURN, line table); " +
+			"bounded-exhaustive tiny programs: 58 statement templates x 1860 expressions (21 atoms, 5 unary forms, 9 binary operators over all atom pairs) x 5 surroundings (quick: a seed-chosen quarter of the templates with all expressions, the rest with atoms and unary forms); jump-boundary family: ten constructs (numeric/generic for, while, repeat, if, if/else, jump-to-jump, break, forward and backward goto) whose bodies are 131066..131075 one-instruction statements; " +
 			"rejected sources must be rejected with an error, not a panic; non-trivial = prototype tree with >=2 functions or >=30 instructions; distinct by source hash",
 		Assumptions: []string{
 			"the verifier decodes with the shifts/masks hard-coded in vm.go and the operand roles read from the VM's instruction handlers",
-			"implicit register ranges (CALL/RETURN/CONCAT/FORLOOP/SETLIST windows) are reported, not asserted, against NumUsedRegisters: the statement speaks of operands",
+			"registers an instruction writes without naming them one by one (CALL results, SELF's method slot, FORLOOP/TFORLOOP loop variables, fixed-count VARARG) are asserted against NumUsedRegisters like operands; argument/return/concat/set-list windows (filled by earlier instructions that name each register) are only reported",
+			"a jump onto the k-th word of a MOVEN group is accepted: the tail words are complete MOVE instructions of the un-merged stream, executing them one by one is what the group does",
 		},
 		CrashIsViolation: true,
 		Run:              run,
